@@ -54,6 +54,8 @@ class runtime_error(FeedbackResponse):
             exception_message = str(exception)
             if not isinstance(exception_message, str):
                 raise TypeError("__str__ returned non-string")
+            # A subclass of str may have its own (broken) slicing or upper()
+            exception_message = str.__str__(exception_message)
         except KeyboardInterrupt:
             raise
         except BaseException:
